@@ -253,7 +253,9 @@ def pack_dataclass(spec: ValueSpec) -> Optional[Expression]:
             builder = spec.builder.__class__(
                 spec.origin_type,
                 type_args,
-                dialect=spec.builder.dialect,
+                dialect=(
+                    spec.builder.dialect if not spec.builder.is_nailed else None
+                ),
                 format_name=spec.builder.format_name,
                 default_dialect=spec.builder.default_dialect,
                 attrs=method_loc,
